@@ -244,11 +244,20 @@ class NodeExpandedDiGraph(nx.DiGraph):
     
     def get_expanded_additional_starts(self, additional_starts):
         
+        self._check_are_nodes(additional_starts, "additional_starts")
         return [self.get_expanded_edge(node)[0] for node in additional_starts]
     
     def get_expanded_additional_ends(self, additional_ends):
         
+        self._check_are_nodes(additional_ends, "additional_ends")
         return [self.get_expanded_edge(node)[1] for node in additional_ends]
+
+    def _check_are_nodes(self, elements, what):
+        # (get_expanded_edge also accepts an edge tuple, which is no start or end NODE)
+        for element in elements:
+            if not isinstance(element, str):
+                utils.logger.error(f"{__name__}: {what} must contain nodes of the graph, not {element}.")
+                raise ValueError(f"{what} must contain nodes of the graph, not {element}.")
     
     def get_expanded_subpath_constraints(self, subpath_constraints):
         """
